@@ -46,6 +46,59 @@ Definition rounding (which:Z) (f:spec_float) : option Z :=      (* 0 trunc, 1 fl
             else (if s then - mag_ceil p e else mag_ceil p e))
   | _ => None end.
 
+(* ---------- real floor division and remainder: CPython's float_divmod (Objects/floatobject.c) and C fmod, transcribed ----------
+   fmod is EXACT: with both operands written over a common exponent, |x| mod |y| is an integer below |y|'s mantissa, so it is representable *)
+Definition fdiv := SFdiv prec emax.
+Definition f_sign (f:spec_float) : bool := match f with S754_zero s | S754_infinity s | S754_finite s _ _ => s | S754_nan => false end.
+Definition f_with_sign (s:bool) (f:spec_float) : spec_float :=
+  match f with S754_zero _ => S754_zero s | S754_infinity _ => S754_infinity s | S754_finite _ m e => S754_finite s m e | S754_nan => S754_nan end.
+Definition f_lt0 (f:spec_float) : bool := match SFcompare f f_zero with Some Lt => true | _ => false end.
+Inductive fres := FOk (f:spec_float) | FZeroDiv | FDomain.
+Definition c_fmod (x y:spec_float) : fres :=
+  match x, y with
+  | S754_nan, _ | _, S754_nan => FOk S754_nan
+  | S754_infinity _, _ => FDomain
+  | _, S754_zero _ => FDomain
+  | _, S754_infinity _ => FOk x
+  | S754_zero _, _ => FOk x
+  | S754_finite sx mx ex, S754_finite _ my ey =>
+      let e := Z.min ex ey in
+      let a := Zpos mx * 2 ^ (ex - e) in let b := Zpos my * 2 ^ (ey - e) in
+      let r := a mod b in
+      FOk (if r =? 0 then S754_zero sx else binary_normalize prec emax (if sx then - r else r) e sx)
+  end.
+(* math.fmod(a, b): ValueError when b is 0 or a is infinite (mapped by the built-in to the division / arithmetic error) *)
+Definition py_fmod (x y:spec_float) : fres :=
+  match c_fmod x y with
+  | FDomain => if f_is_zero y then FZeroDiv else FDomain
+  | r => r end.
+Definition f_floor (f:spec_float) : spec_float :=
+  match f with
+  | S754_finite s m e => if 0 <=? e then f else
+      let fl := if s then - ((Zpos m + 2 ^ (- e) - 1) / 2 ^ (- e)) else Zpos m / 2 ^ (- e) in
+      if fl =? 0 then S754_zero s else binary_normalize prec emax fl 0 s
+  | _ => f end.
+Definition f_half := fdiv (f_of_Z 1) (f_of_Z 2).
+Definition f_gt (a b:spec_float) : bool := match SFcompare a b with Some Gt => true | _ => false end.
+(* a // b for doubles; b = 0 is ZeroDivisionError *)
+Definition py_floordiv (vx wx:spec_float) : fres :=
+  if f_is_zero wx then FZeroDiv else
+  match c_fmod vx wx with
+  | FDomain => FOk S754_nan                     (* fmod(inf, y) = nan in C: Python's float // goes through C fmod, not math.fmod *)
+  | FZeroDiv => FZeroDiv
+  | FOk md =>
+      let div0 := fdiv (fsub vx md) wx in
+      let '(md1, div1) := if negb (f_is_zero md) && negb (f_nan md) then (if Bool.eqb (f_lt0 wx) (f_lt0 md) then (md, div0) else (fadd md wx, fsub div0 (f_of_Z 1))) else (md, div0) in
+      if f_nan div1 then FOk div1 else
+      if f_is_zero div1 then FOk (S754_zero (xorb (f_sign vx) (f_sign wx)))     (* zero with the sign of the true quotient *)
+      else let fl := f_floor div1 in FOk (if f_gt (fsub div1 fl) f_half then fadd fl (f_of_Z 1) else fl)
+  end.
+(* the repository's ㄴㄴ on reals: value = a // b; if value < 0: value = -(-a // b)   (truncation toward zero) *)
+Definition py_truncdiv (a b:spec_float) : fres :=
+  match py_floordiv a b with
+  | FOk v => if f_lt0 v then match py_floordiv (SFopp a) b with FOk v2 => FOk (SFopp v2) | r => r end else FOk v
+  | r => r end.
+
 (* canonical external form used by the harness: F[-]<odd mantissa>p<exponent> | F[-]0 | F[-]inf | Fnan *)
 Fixpoint strip2 (fuel:nat) (m e:Z) : Z * Z := match fuel with O => (m, e) | S f => if Z.even m && negb (m =? 0) then strip2 f (m / 2) (e + 1) else (m, e) end.
 Fixpoint dec_digits (fuel:nat) (n:Z) (acc:list N) : list N :=
